@@ -76,6 +76,7 @@ def run(c):
         c.report("extraction/oracle build failed: " + out[-800:], {"machinery": "oracle"}, no_input=True)
         return
     g = cg.Gen(c.rng)
+    g.calc_only = True      # combos that calculate but would not validate (rate key under a country without regime)
     n = 2500 if quick else 100000
     docs = [g.doc() for _ in range(n)]
     docs = [d for d in docs if cg.in_domain(d)[0]]
